@@ -1,12 +1,19 @@
 use super::*;
 
-pub(super) fn get_first_sets(rules: &[Rule]) -> HashMap<String, FirstSet> {
-    let builder = FirstSetMapBuilder { rules };
+pub(super) fn get_first_sets(
+    rules: &[Rule],
+    nonterminals: &[Nonterminal],
+) -> HashMap<String, FirstSet> {
+    let builder = FirstSetMapBuilder {
+        rules,
+        nonterminals,
+    };
     builder.get_first_sets()
 }
 
 struct FirstSetMapBuilder<'a> {
     rules: &'a [Rule<'a>],
+    nonterminals: &'a [Nonterminal],
 }
 
 impl FirstSetMapBuilder<'_> {
@@ -36,9 +43,11 @@ impl FirstSetMapBuilder<'_> {
     }
 
     fn get_nonterminal_names(&self) -> Oset<&str> {
-        self.rules
+        // An enum without variants has no rules,
+        // so we cannot collect the names from the rules.
+        self.nonterminals
             .iter()
-            .map(|rule| rule.constructor_name.type_name())
+            .map(|nonterminal| nonterminal.name())
             .collect()
     }
 
